@@ -22,6 +22,8 @@ FIXED = ["Type=dir;", "a -> b", "->", "250 x", "250-x", '""', 'a""b', '"a', 'a"'
          "a;b=c", "...", "  a", 'a"""b', "Size=5;x", "total 0", "a\tb", "d", "-", "226 done", "1 2 3 4 5 6 7 8 9",
          "a; b", "; x", "x; Type=dir; y", "a ;b", "a= b", "a;", "a -> b -> c", "Jan 15 12:30 x", "a\\ b", "a  b",
          # names a shell, a home-directory convention or a glob would read something into
+         # a name that begins and ends with a quote (what a client that quotes its arguments would send for the name inside)
+         '"a"', '"a b"', '"d"',
          "~", "~x", "~root", "x~", "$HOME", "%HOME%", "*", "?", "[a]", "{a,b}", "`x`", "$(x)", "!", "#x", "&", "a|b", "a>b"]
 DATA = b"payload-\xff\x00-end"
 
@@ -203,6 +205,19 @@ def scenario(name, depth, fallback, encoding="utf-8"):
         await c.rename(other, f)
         if not tree_has(exp, "rename-back"):
             return
+        if name not in (".", ".."):
+            # 9b renamed from inside its directory to a bare name: that is a name in the working directory
+            await c.change_directory(P)
+            bare = "m" + name
+            await c.rename(f, bare)
+            exp2b = dict(exp)
+            del exp2b[str(f)]
+            exp2b[str(P / bare)] = DATA
+            if not tree_has(exp2b, "rename-to-bare-name"):
+                return
+            await c.rename(bare, f)
+            if not tree_has(exp, "rename-back-from-bare-name"):
+                return
         # 10 remove
         await c.remove(d)
         if not tree_has(base, "remove"):
